@@ -31,6 +31,7 @@ class Bounds:
         self.world = world; self.mod = world.mod
         self.wmemo = {}; self.rmemo = {}
         self._fp = {}
+        self.rcontracts = {}
         self.contracts = {}      # (function, param) -> summary taken from the instance table: callers are judged against the
                                  # callee's contract, so a callee that breaks it is reported once, at the root cause
 
@@ -39,11 +40,30 @@ class Bounds:
             fi = self.world.fi(fn).prepare(); F = Facts(fi); self._fp[fn.name] = (fi, F, Prover(fi, F))
         return self._fp[fn.name]
 
+    def live_blocks(self, fn):
+        """blocks reachable from the entry without taking an edge that interval evaluation decides is dead
+        (constant conditions such as endianIsLittle() on this target)"""
+        if not hasattr(self, "_live"): self._live = {}
+        if fn.name not in self._live:
+            from .ival import Intervals
+            dead = Intervals(fn, None, self.world.fi(fn).prepare()).dead_edges()
+            seen = set(); st = [fn.entry.id]
+            while st:
+                x = st.pop()
+                if x in seen: continue
+                seen.add(x)
+                for s2 in fn.bmap[x].succs:
+                    if (x, s2.id) not in dead: st.append(s2.id)
+            self._live[fn.name] = seen
+        return self._live[fn.name]
+
     # ---------------- accesses ----------------
     def accesses(self, fn, root, mode):
         """mode 'w' or 'r'"""
         fi = self.world.fi(fn)
+        live = self.live_blocks(fn)
         for b in fn.blocks:
+            if b.id not in live: continue
             for i in b.insts:
                 if i.op == "store" and mode == "w":
                     r, off = fi.ptr(i.ops[1])
@@ -66,18 +86,26 @@ class Bounds:
                             a = i.ops[n]
                             if not a["t"].endswith("*"): continue
                             r, off = fi.ptr(a)
-                            if r != root: continue
+                            if r != root:
+                                # the tracked object may be reachable through a pointer stored in a local structure
+                                # (a reader/iterator/writer object): its extent is not expressible -> unbounded
+                                ind = self.indirect_access(fn, i, n, root, mode)
+                                if ind: yield (i, "call:%s(via %s)" % (c, ind), Lin(), None)
+                                continue
                             w = self.summary(c, n, mode) if c else ("inf", "indirect call")
                             if w[0] == "none": continue
                             if w[0] == "inf": yield (i, "call:%s" % c, off, None)
                             elif w[0] == "const": yield (i, "call:%s" % c, off, Lin.const(w[1]))
                             elif w[0] == "arg": yield (i, "call:%s" % c, off, fi.lin(i.ops[w[1]]).scale(w[2]))
+                            elif w[0] == "alts":
+                                yield (i, "call:%s" % c, off, [Lin.const(a[1]) if a[0] == "const" else fi.lin(i.ops[a[1]]).scale(a[2]) for a in w[1]])
 
     def summary(self, name, k, mode):
         """extent of param k of function `name`: ('none',) | ('const',K) | ('arg',j,scale) | ('inf',why)"""
         memo = self.wmemo if mode == "w" else self.rmemo
         key = (name, k)
         if mode == "w" and key in self.contracts: return self.contracts[key]
+        if mode == "r" and key in self.rcontracts: return self.rcontracts[key]
         if key in memo: return memo[key]
         memo[key] = ("inf", "recursion")
         fn = self.mod.functions.get(name)
@@ -97,19 +125,33 @@ class Bounds:
             memo[key] = ("inf", "callee unbounded"); return memo[key]
         def all_le(bound):
             for i, kind, off, sz in accs:
-                le, ne = F.at_block(i.block)
-                if not P.prove_le0(off + sz - bound, trim(le, ne)): return False
+                if not any(P.prove_at(off + z - bound, i.block, trim=trim) for z in (sz if isinstance(sz, list) else [sz])): return False
             return True
+        alts = []
         for K in (1, 2, 3, 4, 5, 8, 9, 16, 18, 32, 64, 128, 256, 512, 1024, 8192):
             if all_le(Lin.const(K)):
-                memo[key] = ("const", K); return memo[key]
+                alts.append(("const", K)); break
         for j, p in enumerate(fn.params):
             if p["t"] in ("i64", "i32", "i16", "i8"):
                 for s in (1, 2, 4, 8):
                     if all_le(Lin.atom(("arg", j)).scale(s)):
-                        memo[key] = ("arg", j, s); return memo[key]
-        memo[key] = ("inf", "no template bound")
+                        alts.append(("arg", j, s)); break
+        if not alts: memo[key] = ("inf", "no template bound")
+        elif len(alts) == 1: memo[key] = alts[0]
+        else: memo[key] = ("alts", alts)
         return memo[key]
+
+    def indirect_access(self, fn, call, n, root, mode):
+        """does the callee access `root` through a pointer held inside the object passed as argument n?"""
+        pw = self.world.pts
+        fp = pw.fp.get(fn.name); cs = pw.summ.get(call.get("callee"))
+        if fp is None or cs is None or root[0] != "arg": return None
+        target = ("arg", root[1], 0)
+        inner = fp.deref_closure(fp.roots(call.ops[n]))
+        if target not in inner: return None
+        acc = cs.mod if mode == "w" else cs.reads
+        if ("arg", n, 1) in acc: return "a pointer stored in a local object"
+        return None
 
     # ---------------- obligations ----------------
     def check(self, fn, root, extent, mode, assume=()):
@@ -120,13 +162,13 @@ class Bounds:
             n += 1
             if sz is None:
                 # no closed-form summary: prove the callee's own accesses under the facts known at this call site
-                why = self.prove_in_callee(fn, i, root, off, extent, mode, list(assume))
+                why = self.prove_in_callee(fn, i, root, off, extent, mode, list(assume)) if "(via " not in kind else "the access goes through a pointer stored in a local object; its extent is not tracked"
                 if why is None: okl.append((i, kind, off, Lin.atom(("ctx", i.get("callee")))))
                 else: bad.append((i, kind, "callee %s extent is unbounded in terms of its parameters, and in the context of this call: %s" % ("write" if mode == "w" else "read", why)))
                 continue
-            le, ne = F.at_block(i.block)
-            if P.prove_le0(off + sz - extent, trim(list(le) + list(assume), ne)): okl.append((i, kind, off, sz))
-            else: bad.append((i, kind, "cannot prove %r <= 0 (offset+size-extent)" % (off + sz - extent)))
+            szs = sz if isinstance(sz, list) else [sz]
+            if any(P.prove_at(off + z - extent, i.block, extra_le=assume, trim=trim) for z in szs): okl.append((i, kind, off, szs[0]))
+            else: bad.append((i, kind, "cannot prove %r <= 0 (offset+size-extent)" % (off + szs[-1] - extent)))
         return n, bad, okl
 
     # ---------------- context-sensitive fallback ----------------
@@ -140,14 +182,22 @@ class Bounds:
         if g is None or depth > 2: return "callee not analysable"
         fi, F, P = self.fp(fn)
         gfi, GF, GP = self.fp(g)
-        ren = {}                                        # caller atom -> callee Lin
+        def wrap(atom):
+            if isinstance(atom, tuple) and atom[0] == "prod":
+                x, y = sorted((wrap(atom[1]), wrap(atom[2])), key=repr)
+                return ("prod", x, y)
+            if isinstance(atom, tuple) and atom[0] == "ext": return atom
+            return ("ext", fn.name, atom)
+        def tr(e):
+            out = Lin.const(e.c)
+            for atom, k in e.t.items(): out = out + Lin.atom(wrap(atom)).scale(k)
+            return out
+        # callee atoms expressed over (wrapped) caller atoms: integer arguments and entry values of fields
+        sub = {}
         for j in range(call["nargs"]):
             a = call.ops[j]
             if a["t"].endswith("*"): continue
-            l = fi.lin(a)
-            if len(l.t) == 1 and l.c == 0:
-                (atom, k), = l.t.items()
-                if k == 1: ren[atom] = Lin.atom(("arg", j))
+            sub[("arg", j)] = tr(fi.lin(a))
         st = fi.call_state.get((call.block.id, call.idx), {})
         for j in range(call["nargs"]):
             a = call.ops[j]
@@ -156,15 +206,21 @@ class Bounds:
             if not o.is_const(): continue
             for (lr, lo, lsz), tok in st.items():
                 if lr != r: continue
-                ctok = ("entry", (("arg", j), lo - o.c, lsz))
-                catom = fi.token_lin(tok)
-                if len(catom.t) == 1 and catom.c == 0:
-                    (atom, k), = catom.t.items()
-                    if k == 1: ren.setdefault(atom, Lin.atom(ctok))
-        def tr(e):
+                sub[("entry", (("arg", j), lo - o.c, lsz))] = tr(fi.token_lin(tok))
+        def into(e):
+            """rewrite a callee linear form over the caller's atoms where they correspond"""
             out = Lin.const(e.c)
             for atom, k in e.t.items():
-                out = out + (ren[atom].scale(k) if atom in ren else Lin.atom(("ext", fn.name, atom)).scale(k))
+                if atom in sub: out = out + sub[atom].scale(k)
+                elif isinstance(atom, tuple) and atom[0] == "prod" and (atom[1] in sub or atom[2] in sub):
+                    from .core import prod_atom
+                    x = sub.get(atom[1], Lin.atom(atom[1])); y = sub.get(atom[2], Lin.atom(atom[2]))
+                    if x.is_const(): out = out + y.scale(x.c * k)
+                    elif y.is_const(): out = out + x.scale(y.c * k)
+                    else:
+                        pa = prod_atom(x, y)
+                        out = out + (Lin.atom(pa).scale(k) if pa is not None else Lin.atom(atom).scale(k))
+                else: out = out + Lin.atom(atom).scale(k)
             return out
         le, ne = F.at_block(call.block)
         imp_le = [tr(f) for f in list(le) + list(assume)]; imp_ne = [tr(f) for f in ne]
@@ -172,13 +228,12 @@ class Bounds:
         params = [j for j in range(call["nargs"]) if call.ops[j]["t"].endswith("*") and fi.ptr(call.ops[j])[0] == root]
         for j in params:
             for i2, kind2, off2, sz2 in self.accesses(g, ("arg", j), mode):
-                le2, ne2 = GF.at_block(i2.block)
-                facts = trim(list(le2) + imp_le, list(ne2) + imp_ne)
+                off2 = into(off2)
                 if sz2 is None:
                     w = self.prove_in_callee(g, i2, ("arg", j), off2, bound, mode, imp_le, depth + 1)
                     if w is not None: return "%s -> %s" % (c, w)
                     continue
-                if GP.infeasible(facts, list(ne2) + imp_ne): continue
-                if not GP.prove_le0(off2 + sz2 - bound, facts):
-                    return "%s at %s:%s in %s cannot be bounded (%r <= 0 unproven)" % (kind2, i2.d.get("file", "?").split("/")[-1], i2.line, c, off2 + sz2 - bound)
+                szs2 = [into(z) for z in (sz2 if isinstance(sz2, list) else [sz2])]
+                if not any(GP.prove_at(off2 + z - bound, i2.block, extra_le=imp_le, extra_ne=imp_ne, trim=trim, rewrite=into) for z in szs2):
+                    return "%s at %s:%s in %s cannot be bounded (%r <= 0 unproven)" % (kind2, i2.d.get("file", "?").split("/")[-1], i2.line, c, off2 + szs2[-1] - bound)
         return None
